@@ -10,6 +10,9 @@ is run through run() with a Fermi-Dirac smoother on a coarse and a dense k-grid 
 (generic triclinic 3D zoo systems with 2 and 3 bands, generic 2D zoo systems, Chiral, Haldane, Kane-Mele in an exchange
 field, CuMnAs with the Neel vector along (1,1,1); thorough: a one-band k.p model) and
 every temperature of the alphabet; all tensor components on the whole Fermi-level window inside the bands are compared.
+Axis `use_factor` in {True (default), False}: with use_factor=False ("keep only the sign of the prefactor") given to BOTH
+members of a pair the two forms must agree exactly as they do with the SI prefactor (same oracle, same grids); False is
+run for every pair on one model (quick: zoo2d_2 at 2400 K, plus the composite GME_orb pair on zoo3d_2), see plan().
 
 Oracle (differential, two-grid):  with  scale = max(|sea|,|surf|) over window and components at the dense grid
    (1) max|sea - surf| <= 0.05 scale at the dense grid;
@@ -22,10 +25,11 @@ import numpy as np
 
 ID = "C28"
 LEVEL = "exploration"
-RULE = ("cases = (model, calculator pair, temperature); each case runs the sea and the surface calculator(s) through "
+RULE = ("cases = (model, calculator pair, temperature, use_factor); each case runs the sea and the surface calculator(s) through "
         "run() on a coarse and a dense grid and compares every tensor component at every Fermi level of the window "
         "[Emin+5%, Emax-5%] of the band range; non-trivial = the tensor is non-zero with at least one component above "
-        "20 % of the scale (counted per (pair, model)); the obs records whether an off-diagonal / antisymmetric part is "
+        "20 % of the scale (counted per (pair, model, use_factor)); use_factor=False is passed to both calculators of the "
+        "pair and judged with the unchanged oracle; the obs records whether an off-diagonal / antisymmetric part is "
         "present, i.e. whether a transposition would be visible")
 ASSUMPTIONS = [
     "'sufficiently dense grid' is replaced by one fixed (coarse, dense) pair per (dimension, pair class, T), listed in GRIDS / CHIRAL_GRIDS; "
@@ -47,6 +51,11 @@ ASSUMPTIONS = [
     "k.p: one 1-band model (anisotropic mass + tilt + cubic warping, analytic derivatives) in thorough only (no FFT: "
     "30 ms per k-point); Fermi levels are limited to those whose occupied region (+8.5 kT) stays inside the k-box, "
     "otherwise the two forms differ by boundary terms; multi-band k.p models are not covered",
+    "use_factor: the non-default value False is run for every pair, but only on the cheapest model of each pair class "
+    "(quick: zoo2d_2 at 2400 K for all six pairs + GME_orb on zoo3d_2; thorough adds zoo2d_3, KaneMele_odd_Z, all pairs "
+    "on zoo3d_2, Chiral GME_orb/BerryDipole and NLDrude_Fermider2 on zoo2d_2), not on the full model x temperature list: "
+    "the prefactor handling does not depend on the model. Other constructor options of the calculators (constant_factor "
+    "given by the user, hole_like, tetra, k_resolved, select_bands) are not varied",
     "Fermi-level step kT/10 (kT/5 leaves a 1-2 % binning error in the third-order tensors), smoother cut-off maxdE=8 kT, window padded by 8.5 kT on both sides",
 ]
 
@@ -105,13 +114,13 @@ BUNDLED_2D = (("Haldane_tbm", ("Ohmic", "NLDrude", "Hall_classic")),
 
 
 def plan(tier):
-    """[(model, pair, T_Kelvin, NK_coarse, NK_dense)] -- the complete finite list"""
+    """[(model, pair, T_Kelvin, NK_coarse, NK_dense, use_factor)] -- the complete finite list"""
     quick = tier == "quick"
     out = []
 
-    def add(model, pair, T, table):
+    def add(model, pair, T, table, use_factor=True):
         cls = pair if pair in ("NLDrude", "NLDrude2") else "easy"
-        out.append((model, pair, T) + table[cls])
+        out.append((model, pair, T) + table[cls] + (use_factor,))
 
     # ---- 3D
     for p in ALLP:
@@ -120,7 +129,7 @@ def plan(tier):
         add("zoo3d_2", p, 4640, GRIDS[(3, 4640)])
     for p in (("BerryDipole", "GME_orb", "GME_spin") if quick else ALLP):
         if p == "NLDrude":
-            out.append(("zoo3d_3", p, 4640, 16, 24))     # 0.028 of the scale left at 16^3 with three bands
+            out.append(("zoo3d_3", p, 4640, 16, 24, True))     # 0.028 of the scale left at 16^3 with three bands
         else:
             add("zoo3d_3", p, 4640, GRIDS[(3, 4640)])
     for p in ("Ohmic", "Hall_classic", "NLDrude"):
@@ -131,10 +140,10 @@ def plan(tier):
                 if p != "NLDrude2":
                     add(m, p, 2900, GRIDS[(3, 2900)])
         for p in ("BerryDipole", "GME_orb"):
-            out.append(("Chiral", p, 4640, 16, 24))
+            out.append(("Chiral", p, 4640, 16, 24, True))
         add("Chiral", "NLDrude2", 4640, CHIRAL_GRIDS[4640])
         for p in ("Ohmic", "Hall_classic"):      # NLDrude is not converged at 24^3 (0.10 of the scale, falling)
-            out.append(("kp_aniso", p, 1200, 16, 24))
+            out.append(("kp_aniso", p, 1200, 16, 24, True))
         for p in ("Ohmic", "Hall_classic", "GME_orb", "BerryDipole", "NLDrude"):
             add("Chiral", p, 2900, CHIRAL_GRIDS[2900])
     # ---- 2D
@@ -156,6 +165,26 @@ def plan(tier):
                 if second and p not in ("GME_spin", "GME_orb", "BerryDipole"):
                     continue
                 add(m, p, T, GRIDS[(2, T)])
+    # ---- use_factor=False (both calculators of the pair), same grids as the default-factor case of the same
+    #      (model, pair, T): on a correct tree the two results are the default ones divided by |constant_factor|, so the
+    #      relative disagreement is the same number and needs no calibration of its own.  Cheapest model per pair:
+    #      zoo2d_2 at 2400 K (2.5-11 CPU-s per case, 32 CPU-s together); the composite pair GME_orb (the only one that
+    #      forwards its options to an inner BerryDipole calculator) also in 3D, where all nine components are present
+    for p in ALLP:
+        if p == "NLDrude2" and quick:
+            continue
+        add("zoo2d_2", p, 2400, GRIDS[(2, 2400)], use_factor=False)
+    add("zoo3d_2", "GME_orb", 4640, GRIDS[(3, 4640)], use_factor=False)
+    if not quick:
+        for p in EASY + ("NLDrude",):
+            add("zoo2d_3", p, 2400, GRIDS[(2, 2400)], use_factor=False)
+            if p != "GME_orb":
+                add("zoo3d_2", p, 4640, GRIDS[(3, 4640)], use_factor=False)
+        for p in ("GME_spin", "GME_orb", "BerryDipole"):
+            add("KaneMele_odd_Z", p, 2400, GRIDS[(2, 2400)], use_factor=False)
+        for p in ("BerryDipole", "GME_orb"):
+            out.append(("Chiral", p, 4640, 16, 24, False))
+    assert len(set(out)) == len(out)
     return out
 
 
@@ -194,8 +223,11 @@ def cases(tier, seed):
     pl.sort(key=cost)
     cut = cost(pl[-1]) / 3
     pl = [x for x in pl if cost(x) > cut][::-1] + [x for x in pl if cost(x) <= cut]
-    for m, p, T, nc, nd in pl:
-        yield {"model": m, "pair": p, "T": T, "NK": [nc, nd]}
+    for m, p, T, nc, nd, uf in pl:
+        c = {"model": m, "pair": p, "T": T, "NK": [nc, nd]}
+        if not uf:
+            c["use_factor"] = False       # (the key is absent for the default: case ids of the older cases are unchanged)
+        yield c
 
 
 KP_C = np.array([[3.0, 0.4, -0.3], [0.4, 4.0, 0.5], [-0.3, 0.5, 5.0]])      # inverse-mass tensor (positive definite)
@@ -347,9 +379,11 @@ def run_case(case, seed):
                 data[(nm, NK)] = np.array(r.dataSmooth)[sel]
     NKc, NKd = case["NK"]
     sea_c, sea_d = data[(sea_name, NKc)], data[(sea_name, NKd)]
-    where = f"model={mname} T={T}K NK={NKc}->{NKd} window=[{lo:.3f},{hi:.3f}] ({int(sel.sum())} Fermi levels)"
-    obs = {"n_ef": int(sel.sum())}
+    where = f"model={mname} T={T}K{'' if use_factor else ' use_factor=False (both calculators)'} NK={NKc}->{NKd} window=[{lo:.3f},{hi:.3f}] ({int(sel.sum())} Fermi levels)"
+    obs = {"n_ef": int(sel.sum()), "use_factor": use_factor}
     nt = False
+    nt_key = (pair, mname) if use_factor else (pair, mname, "use_factor=False")
+    uf_tag = "" if use_factor else ":use_factor_False"      # a defect of the non-default option only is a different defect
     for sname in surf_names:
         su_c, su_d = data[(sname, NKc)], data[(sname, NKd)]
         if su_d.shape != sea_d.shape:
@@ -402,10 +436,10 @@ def run_case(case, seed):
                     rel = "factor"
                     bad += f"; sea = {f:.4f} * surf fits"
             imax = np.unravel_index(int(np.argmax(np.abs(sea_d - su_d))), sea_d.shape)
-            return {"ok": False, "key": f"{pair}:{sea_name}_vs_{sname}:{rel}", "nontrivial": (pair, mname),
+            return {"ok": False, "key": f"{pair}:{sea_name}_vs_{sname}:{rel}{uf_tag}", "nontrivial": nt_key,
                     "detail": f"{where}: {bad}; scale={scale:.4e}; worst at Ef={Ef[sel][imax[0]]:.4f} component {tuple(int(x) for x in imax[1:])}: "
                               f"sea={sea_d[imax]:.6e} surf={su_d[imax]:.6e}; two-grid change {disc:.4f}"}
-        nt = (pair, mname)
+        nt = nt_key
     return {"ok": True, "nontrivial": nt, "obs": obs}
 
 
@@ -423,6 +457,8 @@ def finish(tier, cases, results):
                     w["with_asymmetric_part"] += 1
     return {"axes": {"models": sorted({c["model"] for c in cases}), "pairs": sorted({c["pair"] for c in cases}),
                      "temperatures_K": sorted({c["T"] for c in cases}),
+                     "use_factor": sorted({bool(c.get("use_factor", True)) for c in cases}),
+                     "use_factor_False_cases": sorted((c["pair"], c["model"], c["T"]) for c in cases if not c.get("use_factor", True)),
                      "grids": sorted({(c["model"], c["T"], tuple(c["NK"])) for c in cases})},
             "margins_per_pair": worst, "tolerance": TOL,
             "skipped_premise": sum(1 for r in results if isinstance(r.get("obs"), dict) and "skipped" in r["obs"])}
